@@ -120,7 +120,8 @@ func validateReference(thorough bool) {
 // pset couples the model's and tink's view of one parameter set.
 type pset struct {
 	r *ref.SLHParams
-	t *c16b.P
+	t *c16b.P  // seam methods (export shim; a placeholder when the shim's stub was built, see h.Seams)
+	a c16b.API // exported methods of the parameter set: the scheme level only uses these
 }
 
 func (s pset) String() string { return s.r.Name }
@@ -140,12 +141,12 @@ func initSets() {
 		}
 	}
 	for _, r := range ordered {
-		t := c16b.Set(r.Name)
-		if t == nil {
+		t, a := c16b.Set(r.Name), c16b.APISet(r.Name)
+		if t == nil || a == nil {
 			fmt.Printf("[C16] tink has no parameter set %s\n", r.Name)
 			os.Exit(2)
 		}
-		sets = append(sets, pset{r, t})
+		sets = append(sets, pset{r, t, a})
 	}
 }
 
@@ -163,7 +164,7 @@ func main() {
 	h.Main("C16", "exploration",
 		"seams: every enumerated input of every exported seam is compared byte-for-byte with the FIPS 205 model (base_2^b: every digit value at every index for every b in use; chain: every (i,s) with i+s<=w-1; XMSS: every leaf; hypertree and digest split: index corners and every bit of the index bytes reached directly). scheme: seeds x messages x contexts x API paths, keys and signatures byte-identical, mutation catalogue decided identically. An execution is non-trivial when tink code was run and compared; distinct = distinct choice vectors.",
 		[]h.Section{
-			{Name: "seams", Body: seamsSection, Bound: -1},
+			{Name: "seams", Body: seamsSection, Bound: -1, Seam: true}, // every part drives unexported functions through the export shim
 			{Name: "scheme", Body: schemeLevelSection, Bound: -1},
 		})
 }
